@@ -103,6 +103,17 @@ def run(case):
                 want = [s_ for s_ in members if Fraction(s_.start) <= tq <= Fraction(s_.end)]
                 assert t.overlapping(tq) == want and list(t.overlapping_iter(tq)) == want, \
                     "overlapping(%r) != the segments with start <= t <= end" % (tq,)
+        if tb.prec is None:
+            # open-ended segments and infinite time points: still start <= t <= end
+            from pyannote.core import Segment, Timeline
+            inf = float("inf")
+            lo_ = min([s_.start for s_ in members] + [0]) - 5
+            hi_ = max([s_.end for s_ in members] + [0]) + 5
+            open_ = Timeline(list(members) + [Segment(hi_, inf), Segment(-inf, lo_), Segment(-inf, inf)])
+            for tq in (inf, -inf, hi_, lo_, hi_ + 1e300, -1e300, (lo_ + hi_) / 2):
+                want = [s_ for s_ in open_ if s_.start <= tq <= s_.end]
+                assert open_.overlapping(tq) == want and list(open_.overlapping_iter(tq)) == want, \
+                    "overlapping(%r) != the segments with start <= t <= end (open-ended segments)" % (tq,)
         if tb.prec is None and case["segs"]:
             from pyannote.core import Segment, Timeline
             base = 1_700_000_000_000_000_000
